@@ -133,6 +133,8 @@ def trace_part(rep: C.Report, wd: str, tier: str, rnd: random.Random, extra_msgs
     msgs = list(extra_msgs) + [msggen.r_message(rnd) for _ in range(n)]
     events = []
     for m in msgs:
+        if C.too_many_hangs():
+            break
         if rnd.random() < 0.06:
             failing_pack(rnd)
         events.append(codec_event(m))
